@@ -71,6 +71,9 @@ for prop in sorted(os.listdir(seeds)):
             shutil.copy(npath, os.path.join(out, "notes.md"))
             notes = open(npath).read()
         first_caught = None if r1 is None or "checks" not in r1 else bool(r1.get("caught_by_own_check"))
+        old_meta = {}
+        if os.path.exists(os.path.join(out, "meta.json")):
+            old_meta = json.load(open(os.path.join(out, "meta.json")))
         if r1 is None and letter not in first_of and os.path.exists(os.path.join(out, "meta.json")):
             # no first-wave result directory given for this letter: keep what was recorded when it was assembled
             first_caught = json.load(open(os.path.join(out, "meta.json"))).get("own_check_when_the_wave_started")
@@ -83,7 +86,7 @@ for prop in sorted(os.listdir(seeds)):
             "what": one_line(notes),
             "needs_to_manifest": "see notes.md",
             "rebased_on_current_tree": os.path.exists(patch + ".orig"),
-            "demo_adjusted": os.path.exists(os.path.join(pdir, letter + "_demo.py.orig")),
+            "demo_adjusted": os.path.exists(os.path.join(pdir, letter + "_demo.py.orig")) or bool(old_meta.get("demo_adjusted")),
             "still_manifests": not gone,
             "replay_artefact": r2.get("replay"),
             "confirmed_in_scratch_worktree": {
